@@ -156,6 +156,35 @@ for name in PARSER_FUNCTIONS:
     if len(samples) < 3:
         samples.append({"parser_function": name, "vectors": len(vecs), "example": [a[:10] for a in vecs[-1]]})
 
+# ---- (1b) #time / #timel: every format letter against every kind of timestamp (aware, naive 14-digit, @seconds, local)
+FMT = "dDjlNSwzWFmMntLoYyaAgGhHisueIOPTZcrU"
+STAMPS = ["", "now", "20130914013636", "@86400", "@0", "2004-02-29", "2007-02-01 12:00", "1 mars 2020", "02/03/2020", "garbage"]
+for fnname in ("#time", "#timel"):
+    for letter in FMT:
+        for ts in STAMPS:
+            try:
+                call_pf(ctx, fnname, (letter, ts), "Tt")
+                call_pf(ctx, fnname, ("x" + letter + letter, ts, "fr"), "Tt")
+            except Timeout:
+                failures[(fnname, "timeout")] = {"ident": f"parserfns:{fnname}#bounded-terminates", "witness_class": "timeout",
+                                                 "what": f"{fnname}|{letter}|{ts} did not return", "witness": [letter, ts]}
+            except Exception as ex:
+                record("parser function", "parserfns:time_fn#bounded-no-raise", ex,
+                       {"parser_function": fnname, "args": [letter, ts], "title": "Tt"})
+    distinct.add(("time-letters", fnname))
+# ---- (1c) #lst / #section with section names that contain regular-expression punctuation
+ctx.add_page("Langs", 0, "a<section begin=notes (old/>N<section end=notes (old/>b<section begin=C++/>cpp<section end=C++/>"
+                         "<section begin=x/>X<section end=x/>")
+for sec in ("notes (old", "[draft", "*x*", "a)b", "C++", "x", "\\d", "a|b", "(?i)x", "", "x{2"):
+    for fnname in ("#lst", "#section"):
+        try:
+            call_pf(ctx, fnname, ("Langs", sec), "Tt")
+            call_pf(ctx, fnname, ("Nosuch", sec), "Tt")
+        except Timeout:
+            pass
+        except Exception as ex:
+            record("parser function", "parserfns:lst_fn#bounded-no-raise", ex,
+                   {"parser_function": fnname, "args": ["Langs", sec], "title": "Tt"})
 # ---- (2) #expr token soups
 TOK = ["1", "2.5", "(", ")", "+", "-", "*", "/", "^", "e", "mod", "round", "and", "or", "not", "=", "<",
        ">=", "!=", "ceil", "ln", "exp", "sqrt", "sin", "abs", "floor", "trunc", "pi", ".", "1e400", "0",
